@@ -26,9 +26,13 @@ CONFIGS = {
     "sse": {"GODEBUG": "cpu.avx2=off,cpu.avx=off"},
     "scalar": {"GODEBUG": "cpu.avx2=off,cpu.avx=off,cpu.ssse3=off"},
     "noclmul": {"GODEBUG": "cpu.pclmulqdq=off"},
+    # AES-NI without PCLMULQDQ combined with the narrower SIMD tiers: the table-driven GCM over 4-block batches
+    "noclmul-avx": {"GODEBUG": "cpu.pclmulqdq=off,cpu.avx2=off"},
+    "noclmul-sse": {"GODEBUG": "cpu.pclmulqdq=off,cpu.avx2=off,cpu.avx=off"},
     "noaes": {"GODEBUG": "cpu.aes=off"},
     "noadx": {"GODEBUG": "cpu.adx=off"},
     "nobmi2": {"GODEBUG": "cpu.bmi2=off"},
+    "noadx-avx": {"GODEBUG": "cpu.adx=off,cpu.avx2=off"},   # plain MULQ field arithmetic together with the SSE table select
     "aesni1": {"FORCE_SM4BLOCK_AESNI": "1"},
     "sha1ok": {"GODEBUG": "x509sha1=1"},
     "purego": {},  # used with the purego variants
